@@ -5,12 +5,13 @@ CONSTANTS
   P1 = "trace.parent_id"
   P2 = "parentId"
   MapOrder <- MapOrderDef
-  TraceOrders <- OrdersBig
-  ParentOrders <- OrdersBig
+  TraceOrders <- TraceOrdersBig
+  ParentOrders <- ParentOrdersBig
   Orders <- OrdersBig
   SeqPaths = {"msgp"}
   MapPaths = {"map"}
   PTypings = {"absent", "str", "empty", "nonstr"}
+  STypings = {"absent", "log", "trace", "empty", "nonstr"}
   Faithful = FALSE
 CHECK_DEADLOCK FALSE
 INVARIANTS TypeOK C21Belongs C21ConfiguredOrder C21Root C21OrderIndependent OnlyIdeal
